@@ -1071,7 +1071,7 @@ static void run_type(const Alpha<T> &AL, uint64_t &states)
         cs.name = "unary:" + tn;
         cs.n = N;
         cs.counter_names = CN;
-        cs.hang_s = 30;
+        cs.hang_s = 300; // wall-clock backstop only (machine may be heavily loaded); real hang classes are probed under a CPU-time limit
         cs.desc = [&](long long i) { return tn + " unary operations on p = " + AL.M[i].str(); };
         cs.crash_sig = [&](long long, const std::string &oc) { return "unary:" + tn + ":" + oc; };
         cs.body = [&](long long i, Ctx &c) { unary_body<T>(AL, i, c); };
@@ -1084,7 +1084,7 @@ static void run_type(const Alpha<T> &AL, uint64_t &states)
         cs.name = "conv:" + tn;
         cs.n = EX.size();
         cs.counter_names = CN;
-        cs.hang_s = 30;
+        cs.hang_s = 300; // wall-clock backstop only (machine may be heavily loaded); real hang classes are probed under a CPU-time limit
         cs.desc = [&](long long i) { return tn + " from_basic/as_symbolic of e = " + sstr(EX[i].e); };
         cs.crash_sig = [&](long long, const std::string &oc) { return "conv:" + tn + ":" + oc; };
         cs.body = [&](long long i, Ctx &c) { conv_body<T>(i, c); };
@@ -1097,7 +1097,7 @@ static void run_type(const Alpha<T> &AL, uint64_t &states)
         cs.name = "pairs:" + tn;
         cs.n = N * N;
         cs.counter_names = CN;
-        cs.hang_s = 30;
+        cs.hang_s = 300; // wall-clock backstop only (machine may be heavily loaded); real hang classes are probed under a CPU-time limit
         cs.desc = [&](long long i) { return tn + " a = " + AL.M[i / N].str() + ", b = " + AL.M[i % N].str(); };
         cs.crash_sig = [&](long long, const std::string &oc) { return "pairs:" + tn + ":" + oc; };
         cs.body = [&](long long i, Ctx &c) { pair_body<T>(AL, i, c); };
@@ -1148,7 +1148,7 @@ int main(int argc, char **argv)
         cs.name = "special";
         cs.n = std::max<long long>(64, SP.size()); // padded so that the guarded (possibly hanging) cases run in parallel
         cs.counter_names = CN;
-        cs.hang_s = 30;
+        cs.hang_s = 900; // wall-clock backstop only (machine may be heavily loaded); real hang classes are probed under a CPU-time limit
         cs.desc = [&](long long i) { return i < (long long)SP.size() ? SP[i].desc : std::string("(padding)"); };
         cs.crash_sig = [&](long long i, const std::string &oc) { return (i < (long long)SP.size() ? SP[i].sig : std::string("special")) + ":" + oc; };
         cs.body = [&](long long i, Ctx &c) { special_body(i, c); };
